@@ -69,6 +69,7 @@ fn main() {
 			)
 		}
 		"debug" => { props::c01::debug_schema(args[2].parse().unwrap()); 0 }
+		"debug07" => { props::c07::debug_schema(args[2].parse().unwrap()); 0 }
 		"case" if args.len() >= 5 => {
 			let sp = spec(&args[2]).unwrap_or_else(|| usage());
 			single_case(sp, args[3] == "thorough", args[4].parse().unwrap())
